@@ -273,3 +273,131 @@ def u_matrix_delta(U):
         U.post('entry-is-v-where-all-bit-pairs-match-the-position-and-0-elsewhere', ctx + facts + mdef + [Q(q - 1)],
                T.ent(T.chain(R_, ix, q - 1), 0, 0) == z3.If(match(q - 1), v0, 0), axioms=AXV, mode='ematch')
         U.canary('canary-everywhere-v', ctx + facts + mdef + [Q(q - 1)], T.ent(T.chain(R_, ix, q - 1), 0, 0) == v0, axioms=AXV)
+
+
+# ----------------------------------------------------------------------------------------------
+# call-site contract of grid.grid_prep_opt (what the units grid.grid_prep_opt.* prove): a number with a dimension d >= 1 gives
+# the constant length-d vector, a list / vector gives the vector of its elements
+
+def call_grid_prep_opt(ex, st, args, kwargs, node):
+    opt = st.deref(args[0])
+    d = args[1] if len(args) > 1 else kwargs.get('d', NONE)
+    kind = args[2] if len(args) > 2 else kwargs.get('kind', M.TypeVal('float'))
+    reps = args[3] if len(args) > 3 else kwargs.get('reps', NONE)
+    if reps is not NONE or not isinstance(kind, M.TypeVal) or kind.name != 'float':
+        raise M.Unsupported('grid_prep_opt call-site contract: only kind=float without reps')
+    arr = ex.fresh('opt', RA)
+    k = z3.Int('k!o')
+    if M.is_num(opt):
+        dv = d.val if isinstance(d, VOpt) else d
+        ex.oblige(st, 'call-pre', 'grid_prep_opt: a number needs a dimension d >= 1 (otherwise ValueError)',
+                  z3.And(z3.Not(d.isnone) if isinstance(d, VOpt) else z3.BoolVal(d is not NONE), Z(dv) >= 1) if d is not NONE else False, node)
+        st.assume(z3.ForAll([k], z3.Implies(z3.And(0 <= k, k < Z(dv)), arr[k] == M.to_real(opt)), patterns=[arr[k]]))
+        return X.rvec(Z(dv), arr)
+    if isinstance(opt, VSeq) and opt.tag == 'real':
+        st.assume(z3.ForAll([k], z3.Implies(z3.And(0 <= k, k < opt.n), arr[k] == opt.arr[k]), patterns=[arr[k]]))
+        return X.rvec(opt.n, arr)
+    if X.is_vec1(opt) and opt.tag == 'rvec':
+        return X.rvec(opt.shape[0], opt.t)
+    raise M.Unsupported('grid_prep_opt call-site contract: option kind')
+
+
+# ----------------------------------------------------------------------------------------------
+# tensors.poly  (C19: "the polynomial tensor equals scale times the sum over modes of (index + shift)^power")
+#
+# Element level for every d >= 2, all mode sizes >= 1, a scalar shift or a per-mode list of length d, a symbolic power (x ** p
+# is the uninterpreted powf(x, p): only the identity of the term is used) and every scale:
+#     val(Y, i) = scale * sum_k powf(i_k + shift_k, power),
+# by induction along the chain of the upper-triangular 2 x 2 pattern cores (theory group 'small'); well-formedness (ranks
+# 1, 2, .., 2, 1, mode sizes n).  Not covered: d = 1 (the code returns a malformed single core there; C19 quantifies over d >= 2).
+
+AXP = T.axioms('shape', 'chain', 'elem', 'small')
+
+
+def _poly_unit(U, skind):
+    d = z3.Int('d')
+    narr = z3.Const('n', T.IDX)
+    sarr = z3.Const('shift', RA)
+    s0 = z3.Real('shift0')
+    power, scale = z3.Int('power'), z3.Real('scale')
+    ix = z3.Const('ix', T.IDX)
+    t, m_ = z3.Ints('t!p m!p')
+    sh = (lambda k: s0) if skind == 'number' else (lambda k: sarr[k])
+    g = lambda k, m: X.powf(z3.ToReal(m) + sh(k), z3.ToReal(power))          # _get(m, k)
+
+    def pat(k, m):
+        return z3.If(k == 0, X.m12(1, g(k, m)), z3.If(k == d - 1, X.m21(g(k, m) * scale, scale), X.m22(1, g(k, m), 0, 1)))
+
+    def dims(c, k):
+        return z3.And(T.d0(c) == z3.If(k == 0, 1, 2), T.d1(c) == narr[k], T.d2(c) == z3.If(k == d - 1, 1, 2))
+
+    def inv_outer(ex, s, j):
+        Ys = s.deref(s.vars['Y'])
+        sv = s.vars['shift']
+        return [('length', Ys.n == j),
+                ('shift-is-the-prepared-option-vector', z3.BoolVal(X.is_vec1(sv) and sv.tag == 'rvec')),
+                ('finished-cores-have-the-pattern-shapes', z3.ForAll([t], z3.Implies(z3.And(0 <= t, t < j), dims(Ys.arr[t], t)), patterns=[Ys.arr[t]])),
+                ('finished-cores-have-the-pattern-slices',
+                 z3.ForAll([t, m_], z3.Implies(z3.And(0 <= t, t < j, 0 <= m_, m_ < narr[t]), T.sl(Ys.arr[t], m_) == pat(t, m_)),
+                           patterns=[T.sl(Ys.arr[t], m_)]))]
+
+    def inv_inner(ex, s, m):
+        G = s.vars['G']
+        j = s.ghost['_j0']
+        if not (isinstance(G, VArr) and G.tag == 'core' and G.t is not None):
+            raise M.ContractMismatch('poly: G is not a 3-D core inside the fill loop')
+        return [('core-keeps-its-pattern-shape', dims(G.t, j)),
+                ('filled-slices-have-the-pattern', z3.ForAll([m_], z3.Implies(z3.And(0 <= m_, m_ < m), T.sl(G.t, m_) == pat(j, m_)),
+                                                             patterns=[T.sl(G.t, m_)]))]
+
+    fn = U.func('tensors', 'poly')
+    loops = {0: {'inv': inv_outer}, 1: {'inv': inv_inner}, 2: {'inv': inv_inner}, 3: {'inv': inv_inner}}
+    ex = U.executor(fn, loops=loops, axioms=AXP, type_hints={'Y': 'tt'}, callees={'grid.grid_prep_opt': call_grid_prep_opt})
+    ex.mode = 'ematch'
+    st = U.state()
+    sizes = z3.ForAll([t], z3.Implies(z3.And(0 <= t, t < d), narr[t] >= 1), patterns=[narr[t]])
+    shift = s0 if skind == 'number' else st.alloc(VSeq(sarr, d, lambda x: x, tag='real'))
+    st.vars.update(n=st.alloc(VSeq(narr, d, lambda x: x, tag='int')), shift=shift, power=power, scale=scale)
+    res = U.run(ex, st, pre=[d >= 2, sizes])
+    U.assumed.append('grid.grid_prep_opt (units grid.grid_prep_opt.*)')
+    U.cover('precondition-satisfiable', U.pre, axioms=AXP)
+    k_, k2_ = z3.Ints('k!c k2!c')
+    for p, o in res:
+        if o.kind != 'return':
+            U.post('no-exception', p, False, axioms=AXP, mode='ematch')
+            continue
+        Ys = p.deref(o.value)
+        R_ = Ys.arr
+        sv = p.vars['shift']
+        shv = lambda k: sv.t[k]
+        U.post('d-cores', p, Ys.n == d, axioms=AXP, mode='ematch')
+        U.post('shift-option-is-the-scalar-resp-the-list-element', p, z3.Implies(z3.And(0 <= tt, tt < d), shv(tt) == sh(tt)), axioms=AXP, mode='ematch')
+        U.post('well-formed: ranks 1, 2, .., 2, 1 and the requested mode sizes', p, z3.Implies(z3.And(0 <= tt, tt < d), dims(R_[tt], tt)),
+               axioms=AXP, mode='ematch')
+        ctx = list(p.pc) + [z3.ForAll([t], z3.Implies(z3.And(0 <= t, t < d), z3.And(0 <= ix[t], ix[t] < narr[t])), patterns=[ix[t]])]
+        gi = lambda k: g(k, ix[k])
+        # S(k) = sum_{j <= k} powf(ix_j + shift_j, power)   (spec function, defined by recursion)
+        S_ = z3.Function('psum', z3.IntSort(), z3.RealSort())
+        sdef = [S_(0) == gi(z3.IntVal(0)),
+                z3.ForAll([k_, k2_], z3.Implies(z3.And(k_ >= 0, k2_ == k_ + 1, k2_ < d), S_(k2_) == S_(k_) + gi(k2_)),
+                          patterns=[z3.MultiPattern(S_(k_), S_(k2_))])]
+        Q = lambda k: T.chain(R_, ix, k) == X.m12(1, S_(k))
+        U.lemma('prefix-chain-is-the-row-(1, partial sum).base', ctx + sdef, Q(z3.IntVal(0)), axioms=AXP, kind='lemma-base')
+        U.lemma('prefix-chain-is-the-row-(1, partial sum).step', ctx + sdef + [kk >= 1, kk < d - 1, Q(kk - 1)], Q(kk), axioms=AXP, kind='lemma-step')
+        last = gi(d - 1) * scale + T.rmul(S_(d - 2), scale)
+        U.post('entry-is-last-term*scale + (sum of the other terms)*scale', ctx + sdef + [Q(d - 2)],
+               T.ent(T.chain(R_, ix, d - 1), 0, 0) == last, axioms=AXP, mode='ematch')
+        U.post('which-is-scale-times-the-sum-over-all-modes', list(p.pc) + [S_(d - 1) == S_(d - 2) + gi(d - 1)],
+               gi(d - 1) * scale + S_(d - 2) * scale == scale * S_(d - 1), qf=True)
+        U.lemmas.append('rmul(x, y) = x * y (the abstract product of the element theory is the real product)')
+        U.canary('canary-entry-is-the-plain-sum', ctx + sdef + [Q(d - 2)], T.ent(T.chain(R_, ix, d - 1), 0, 0) == S_(d - 2) + gi(d - 1), axioms=AXP)
+
+
+@unit('tensors.poly.scalar_shift', props=('C19', 'C11'))
+def u_poly_number(U):
+    _poly_unit(U, 'number')
+
+
+@unit('tensors.poly.list_shift', props=('C19', 'C11'))
+def u_poly_list(U):
+    _poly_unit(U, 'list')
